@@ -4,6 +4,7 @@
 #include "sim/sim.h"
 #include <map>
 #include <string>
+#include <vector>
 
 namespace sim {
 
@@ -26,6 +27,8 @@ struct Globals {
   uint32_t prob_den[kFaultKindCount] = {};
   int64_t fail_after[kFaultKindCount] = {};
   Rng fault_rng;
+  std::vector<std::vector<void*>> fault_stacks;
+  bool fault_stacks_overflow = false;
   size_t knob_arena_block = 0;
   size_t knob_code_buffer = 0;
 };
